@@ -3,7 +3,8 @@
     Gen/GenData.v carries the _nowiki_map of the current source). *)
 From Coq Require Import List NArith Bool.
 From WTP Require Import Base.Str Model.Expand Model.Nowiki Gen.GenData Proofs.NowikiProofs Proofs.ExpandProofs.
-From WTP Require Import Model.Preprocess Proofs.PreprocessProofs.
+From Coq Require String.
+From WTP Require Import Model.Preprocess Proofs.PreprocessProofs Gen.GenPre.
 Import ListNotations.
 Open Scope N_scope.
 
@@ -49,3 +50,14 @@ Theorem c15_preprocess_sets_nowiki_aside_and_deletes_comments :
     preprocess (render_ps segs) = PreprocessProofs.spec segs.
 Proof. exact preprocess_spec. Qed.
 Print Assumptions c15_preprocess_sets_nowiki_aside_and_deletes_comments.
+
+
+(* The pass Model/Preprocess.v models is the pass the current source has (Gen/GenPre.v is regenerated from
+   Wtp.preprocess_text on every run; the translator also pins the replacement function). *)
+Module Pattern.
+Import String.
+Theorem c15_preprocess_pattern_is_the_modelled_one :
+  preprocess_pattern = "(?si)<nowiki\s*>(.*?)</nowiki\s*>|<nowiki\s*/>|\n?<!--.*?-->"%string.
+Proof. reflexivity. Qed.
+Print Assumptions c15_preprocess_pattern_is_the_modelled_one.
+End Pattern.
